@@ -403,7 +403,7 @@ func runDyn(c dcfg, path []uint16) (uint64, explore.Status) {
 
 // ---- pager -------------------------------------------------------------------------------------------
 
-var pagerAlphabet = []string{"a", "世", "\n", " "}
+var pagerAlphabet = []string{"a", "世", "\n", " ", "\r\n"}
 
 func refLines(text string, w int) [][]string {
 	// lines at LF; wrap when the row is full; a cluster that does not fit starts a new row
@@ -411,7 +411,7 @@ func refLines(text string, w int) [][]string {
 	cur := []string{}
 	col := 0
 	for _, c := range vaxis.Characters(text) {
-		if c.Grapheme == "\n" {
+		if strings.Contains(c.Grapheme, "\n") { // LF, or CR LF (one cluster)
 			lines = append(lines, cur)
 			cur, col = []string{}, 0
 			continue
@@ -494,16 +494,33 @@ func pagerCase(text string, w, h int, scrolls []int) {
 		bad("content"+lastLine, fmt.Sprintf("rows %q show %q, the text has %q", all, strip(got), strip(want)))
 		return
 	}
-	// hard breaks: text pieces separated by LF never share a row
-	pieces := strings.Split(text, "\n")
-	rowOf := []int{}
-	for y, row := range all {
-		for range vaxis.Characters(strings.TrimRight(row, " ")) {
-			rowOf = append(rowOf, y)
+	// row structure: the non-blank rows are the reference rows (a line break always ends a row, a row
+	// wraps when it is full), blank rows and spaces left aside
+	var wantRows, gotRows []string
+	for _, l := range refLines(text, w) {
+		var fit []string
+		for _, g := range l {
+			if vaxis.Characters(g)[0].Width <= w {
+				fit = append(fit, g)
+			}
+		}
+		if s := strip(fit); s != "" {
+			wantRows = append(wantRows, s)
 		}
 	}
-	_ = pieces
-	_ = rowOf
+	for _, row := range all {
+		var gs []string
+		for _, c := range vaxis.Characters(row) {
+			gs = append(gs, c.Grapheme)
+		}
+		if s := strip(gs); s != "" {
+			gotRows = append(gotRows, s)
+		}
+	}
+	if strings.Join(gotRows, "|") != strings.Join(wantRows, "|") {
+		bad("rows", fmt.Sprintf("rows are %q, the text breaks into %q", gotRows, wantRows))
+		return
+	}
 	// offset clamp and window content: 0 <= Offset <= max(0, L-h) where L, the number of layout lines, is
 	// between the reference line count and that count plus one per line feed (a full row followed by a
 	// line feed yields an empty line in the pager's layout)
@@ -606,7 +623,7 @@ func main() {
 	trans += r.Get("pager_cases")
 	r.Finish(explore.Coverage{
 		States: -1, Transitions: trans, Traces: trans, Evaluations: trans,
-		Rule:       "widgets/list.List: every operation sequence to depth n over {Down, Up, Home, End, PageDown/PageUp(h=0..3), SetItems(0..4), Draw(h=0..4)} from 0..4 items; vxfw/list.Dynamic: every sequence to depth n over 20 operations (NextItem/PrevItem, j/k/arrows through CaptureEvent, wheel, SetCursor, SetPendingScroll, item replacement, Draw) for 96 configurations (item heights, gap 0/1, viewport height 1..4, gutter); pager: every text of <= m symbols over {a, 世, LF, SP} x width 1..4 x height 1..3 x 10 scroll sequences. Oracles: no panic, index in range, children consecutive/contiguous/non-overlapping, selected item inside the viewport after a selection change and a draw, pager content complete (incl. an unterminated last line and wide glyphs at the row end) and offset clamped; operation sequences are not merged (state key = the path)",
+		Rule:       "widgets/list.List: every operation sequence to depth n over {Down, Up, Home, End, PageDown/PageUp(h=0..3), SetItems(0..4), Draw(h=0..4)} from 0..4 items; vxfw/list.Dynamic: every sequence to depth n over 20 operations (NextItem/PrevItem, j/k/arrows through CaptureEvent, wheel, SetCursor, SetPendingScroll, item replacement, Draw) for 96 configurations (item heights, gap 0/1, viewport height 1..4, gutter); pager: every text of <= m symbols over {a, 世, LF, SP, CR LF} x width 1..4 x height 1..3 x 10 scroll sequences. Oracles: no panic, index in range, children consecutive/contiguous/non-overlapping, selected item inside the viewport after a selection change and a draw, pager content complete (incl. an unterminated last line and wide glyphs at the row end) and offset clamped; operation sequences are not merged (state key = the path)",
 		Exhaustive: true,
 		Bounds:     map[string]any{"list_depth": r.Pick(3, 4), "dynamic_depth": r.Pick(3, 4), "dynamic_configs": dynRange, "pager_max_len": r.Pick(5, 6)},
 	})
